@@ -380,6 +380,11 @@ async def _consume(api, world, name, token, h, consume, out):
         got = []
         out["net_reads"] = got
         out["net_max"] = []
+        if spec.get("body") == "first":
+            # a caller may read the (empty) body of the 101 / CONNECT response before it
+            # turns to the network stream, as response.read() does
+            while await api.next_chunk(h) is not None:
+                pass
         total = 0
         i = 0
         writes = list(spec.get("writes", ()))
@@ -396,6 +401,9 @@ async def _consume(api, world, name, token, h, consume, out):
                 await api.net_write(h, _b(writes.pop(0)))
         for wdata in writes:
             await api.net_write(h, _b(wdata))
+        if spec.get("body") == "last":
+            while await api.next_chunk(h) is not None:
+                pass
     elif consume == "close":
         pass
     else:
